@@ -43,7 +43,120 @@ def _range_guard(f: Func, var: str, width: int, before_line: int, t) -> Optional
     return None
 
 
-def _precedes_in_block(guard: ast.If, write_line: int) -> bool:
+def _checking_helpers(comp, t) -> Dict[str, Tuple[int, int]]:
+    """Methods that refuse a value their field cannot hold: name -> (parameter position without self, width).  The
+    body has `if <param outside the capacity>: raise <JSError family>` as a top-level statement."""
+    out: Dict[str, Tuple[int, int]] = {}
+    for m in comp.methods.values():
+        if isinstance(m.node, ast.Lambda):
+            continue
+        ps = [p for p in m.params() if p != "self"]
+        for i, p in enumerate(ps):
+            for wd in (2, 1):
+                for n in m.node.body:
+                    if not isinstance(n, ast.If) or p not in [x.id for x in ast.walk(n.test) if isinstance(x, ast.Name)]:
+                        continue
+                    consts = {c for c in (_const_int(x) for x in ast.walk(n.test)) if c is not None}
+                    if not (consts & set(CAPS[wd])) or "&" in norm(n.test) or ">>" in norm(n.test):
+                        continue
+                    for s in n.body:
+                        if isinstance(s, ast.Raise) and s.exc is not None:
+                            cls = norm(s.exc.func) if isinstance(s.exc, ast.Call) else norm(s.exc)
+                            if "JSError" in t.exc_ancestors(m.module, cls.split(".")[-1]) and m.name not in out:
+                                out[m.name] = (i, wd)
+    return out
+
+
+def _checked_position_helpers(comp, t) -> Set[str]:
+    """Methods without parameters that return a value after handing it to a checking helper (`_here()`)."""
+    chk = _checking_helpers(comp, t)
+    out: Set[str] = set()
+    for m in comp.methods.values():
+        if isinstance(m.node, ast.Lambda) or [p for p in m.params() if p != "self"]:
+            continue
+        rets = [r for r in m.own_nodes() if isinstance(r, ast.Return) and r.value is not None]
+        if not rets or not all(isinstance(r.value, ast.Name) for r in rets):
+            continue
+        ok = True
+        for r in rets:
+            v = r.value.id
+            passed = [c for c in m.own_nodes() if isinstance(c, ast.Call) and isinstance(c.func, ast.Attribute) and norm(c.func.value) == "self" and c.func.attr in chk and len(c.args) > chk[c.func.attr][0] and norm(c.args[chk[c.func.attr][0]]) == v and c.lineno < r.lineno]
+            if not passed:
+                ok = False
+        if ok:
+            out.add(m.name)
+    return out
+
+
+def _helper_guard(f: Func, var: str, width: int, before_line: int, comp, t) -> Optional[str]:
+    """`self.<checking helper>(var)` as an earlier statement of a block that also contains the write."""
+    chk = _checking_helpers(comp, t)
+    for n in f.own_nodes():
+        if isinstance(n, ast.Expr) and isinstance(n.value, ast.Call) and isinstance(n.value.func, ast.Attribute) and norm(n.value.func.value) == "self" and n.value.func.attr in chk and n.lineno < before_line:
+            pos, wd = chk[n.value.func.attr]
+            if wd == width and len(n.value.args) > pos and norm(n.value.args[pos]) == var and _precedes_in_block(n, before_line):
+                return f"line {n.lineno}: self.{n.value.func.attr}({var})"
+    return None
+
+
+def _unchecked_explicit_arguments(comp, m: Func, var: str, t) -> Optional[List[Tuple[Func, ast.Call, str]]]:
+    """m checks `var` only when the caller left it out (`if var is None: var = self.<checked position>()`).  Then every
+    caller that passes it owes the check: returns the call sites whose argument is not a checked position, or None
+    when m does not have that shape."""
+    cps = _checked_position_helpers(comp, t)
+    ps = [p for p in m.params() if p != "self"]
+    if var not in ps:
+        return None
+    shape = False
+    for n in m.node.body:
+        if isinstance(n, ast.If) and norm(n.test) == f"{var} is None" and len(n.body) == 1 and isinstance(n.body[0], ast.Assign) and norm(n.body[0].targets[0]) == var:
+            v = n.body[0].value
+            if isinstance(v, ast.Call) and isinstance(v.func, ast.Attribute) and norm(v.func.value) == "self" and v.func.attr in cps:
+                shape = True
+    if not shape:
+        return None
+    idx = ps.index(var)
+
+    def checked_value(e: ast.AST, g: Func, depth: int = 0) -> Optional[str]:
+        """None when e is a checked position in g, else the text of the unchecked source."""
+        if depth > 3:
+            return norm(e)
+        if isinstance(e, ast.Call) and isinstance(e.func, ast.Attribute) and norm(e.func.value) == "self" and e.func.attr in cps:
+            return None
+        if isinstance(e, ast.Name):
+            defs = [a.value for a in g.own_nodes() if isinstance(a, ast.Assign) and any(isinstance(tg, ast.Name) and tg.id == e.id for tg in a.targets)]
+            if not defs:
+                return f"{e.id} (not assigned in {g.name})"
+            for d in defs:
+                r = checked_value(d, g, depth + 1)
+                if r is not None:
+                    return f"{e.id} = {r}"
+            return None
+        if isinstance(e, ast.Subscript) and isinstance(e.value, ast.Name):
+            apps = [c for c in g.own_nodes() if isinstance(c, ast.Call) and isinstance(c.func, ast.Attribute) and c.func.attr == "append" and norm(c.func.value) == e.value.id and c.args]
+            if not apps:
+                return f"{e.value.id}[..] (never appended to in {g.name})"
+            for c in apps:
+                r = checked_value(c.args[0], g, depth + 1)
+                if r is not None:
+                    return f"{e.value.id}.append({r}) at line {c.lineno}"
+            return None
+        return short(e, 40)
+
+    bad: List[Tuple[Func, ast.Call, str]] = []
+    for g in comp.methods.values():
+        for c in g.own_nodes():
+            if isinstance(c, ast.Call) and isinstance(c.func, ast.Attribute) and norm(c.func.value) == "self" and c.func.attr == m.name:
+                arg = c.args[idx] if len(c.args) > idx else next((k.value for k in c.keywords if k.arg == var), None)
+                if arg is None or (isinstance(arg, ast.Constant) and arg.value is None):
+                    continue
+                r = checked_value(arg, g)
+                if r is not None:
+                    bad.append((g, c, r))
+    return bad
+
+
+def _precedes_in_block(guard: ast.stmt, write_line: int) -> bool:
     parent = getattr(guard, "_parent", None)
     for field in ("body", "orelse", "finalbody"):
         blk = getattr(parent, field, None)
@@ -136,9 +249,16 @@ def rule_checked_encoding(ctx, rep, rid: str) -> None:
             wd = 2 if any(">>" in norm(w[0]) for w in ws) else 1
             key = f"{m.qual}:{var}:{wd * 8}-bit"
             line = min(l for _, l in ws)
-            g = _range_guard(m, var, wd, line, t)
+            g = _range_guard(m, var, wd, line, t) or _helper_guard(m, var, wd, line, comp, t)
+            explicit = None if g else _unchecked_explicit_arguments(comp, m, var, t)
             if g:
                 rep.ok(rid, key, {"guard": g, "writes": [short(e, 40) for e, _ in ws]})
+            elif explicit is not None:
+                # the check is made where a position is recorded: every caller that passes one owes it
+                if not explicit:
+                    rep.ok(rid, key, {"guard": f"`{var}` is a checked position: the default comes from a helper that checks it, and every caller passes one obtained the same way", "writes": [short(e, 40) for e, _ in ws]})
+                for g2, c2, src in explicit:
+                    rep.bad(rid, f"{m.qual}:{var}:{wd * 8}-bit:{g2.name}:{short(c2, 40)}", f"{m.name} writes `{var}` into a 16-bit field and checks it only when the caller leaves it out; {g2.name} passes `{short(c2.args[-1] if c2.args else c2, 40)}`, which is not a checked position ({src}): a target recorded there above 65535 is written modulo 65536 and the jump lands somewhere else", f"{g2.module.rel}:{c2.lineno}")
             elif wd == 2 and _units_length_checked(ctx, t)[0]:
                 # jump targets are positions inside the unit: a unit of at most 65536 bytes has none above 65535
                 rep.ok(rid, key, {"guard": "every code unit is refused above 65536 bytes when it is finished", "writes": [short(e, 40) for e, _ in ws], "finishers": _units_length_checked(ctx, t)[1]})
